@@ -153,10 +153,12 @@ package server
 //@ props C09
 //@ func (*peer).isIBGPPeer
 //@   pure
-//@   spec-only
+//@   claims at-return
+//@   at-return requires ret0 == (conf.State.PeerType == oc.PEER_TYPE_INTERNAL)
 //@ func (*peer).AS
 //@   pure
-//@   spec-only
+//@   claims at-return
+//@   at-return requires ret0 == conf.State.PeerAs
 //@ func (*peer).ID
 //@   pure
 //@   spec-only
@@ -165,22 +167,29 @@ package server
 //@   spec-only
 //@ func (*peer).isRouteReflectorClient
 //@   pure
-//@   spec-only
+//@   claims at-return
+//@   at-return requires ret0 == conf.RouteReflector.Config.RouteReflectorClient
 //@ func (*peer).isRouteServerClient
 //@   pure
-//@   spec-only
+//@   claims at-return
+//@   at-return requires ret0 == conf.RouteServer.Config.RouteServerClient
 //@ func (*peer).allowAsPathLoopLocal
 //@   pure
-//@   spec-only
+//@   claims at-return
+//@   at-return requires ret0 == conf.AsPathOptions.Config.AllowAsPathLoopLocal
 //@ func (*peer).IsFamilyEnabled
 //@   pure
 //@   spec-only
 //@ func (*pConfAccess).ReadOnly
 //@   pure
 //@   spec-only
+// (used as an uninterpreted predicate in the clauses below; its body is pinned separately: it asks whether the AS of
+// the peer the route is offered to occurs in the route's AS list, and answers what the search answers)
 //@ func isASLoop
 //@   pure
-//@   spec-only
+//@   claims at-call at-return
+//@   at-call slices.Contains( requires arg1 == peer.AS() && called(GetAsList)
+//@   at-return requires called(Contains)
 
 // from C09: "A route is never advertised back to the router it came from" (route-server clients and the RFC 4684
 // reflection of RT memberships to RR clients excepted): what comes out is the route itself, a withdrawal, or nothing
